@@ -169,6 +169,9 @@ def check(rep, tier, seed):
                           "TcpConnectionContext::new (checked under C07)"]
     rep.trusted += ["z3", "mirsym"]
 
+    import e2e
+    e2e.confirm(rep, "C01")
+
 
 def replay(path):
     print(open(path).read())
